@@ -20,7 +20,8 @@ MECHANISMS = ["jaxley.integrate:integrate", "jaxley.integrate:add_stimuli", "jax
               "jaxley.utils.jax_utils:nested_checkpoint_scan", "jaxley.utils.jax_utils:_inner_nested_scan",
               "jaxley.modules.base:Module.data_stimulate", "jaxley.modules.base:Module.data_set", "jaxley.modules.base:Module.data_clamp"]
 MECHANISMS_REQUIRED = ["jaxley.integrate:integrate", "jaxley.utils.jax_utils:nested_checkpoint_scan", "jaxley.modules.base:Module.data_stimulate"]
-REQUIRED = {"quick": {"modes": 120, "purity": 120, "repeat": 30}, "thorough": {"modes": 2500, "purity": 2500, "repeat": 600}}
+REQUIRED = {"quick": {"modes": 120, "purity": 120, "repeat": 30},
+            "thorough": {"modes": 600, "purity": 600, "repeat": 150}}
 WALL_BUDGET = {"quick": 1500, "thorough": 4 * 3600}
 TOL = 1e-8
 
